@@ -32,8 +32,8 @@ TEXT = {
          'the byte-for-byte comparison is a finite computation that is executed, not proved; -noast front ends are not considered (a front end needs Execute).'),
  'C18': ('CLI model transcribed from main.go over a finite scenario table (18432 rows); exit 0 => complete parser at the requested destination, errors => non-zero + message, flags irrelevant, all by kernel decision over the whole table; tie: every abstract scenario realised by >= 3 concrete runs of the built binary (permission faults via unprivileged uid, /dev/full, injected close errors).',
          'OS behaviour enters as abstract scenario classes; their concrete realisation is part of the tie.'),
- 'C10': ('model front end = PEG semantics (evalF, proved sound) of the grammar peg.peg itself — regenerated into Lean from /repo/peg.peg on every run — composed with a Lean transcription of the tree builder; theorems re-checked by the kernel against the regenerated grammar: complete escape table (474 spellings), representative evaluations of every construct, precedence chain, and universal builder lemmas (list flattening, no panic on balanced call sequences, hex/octal decoding for all digit strings, model soundness w.r.t. Eval); tie T-front: every spelling variant of generated abstract grammars REAL vs denote (spec) vs model, plus a malformed stream (reject or agree with the model, never panic).',
-         'the universal round trip frontEnd(render a sp) = denote a is tested, not proved; strings.ToLower/ToUpper on non-ASCII runes outside the model; documentation deviations are recorded as known findings F-C10-*.'),
+ 'C10': ('model front end = PEG semantics (evalF, proved sound) of the grammar peg.peg itself — regenerated into Lean from /repo/peg.peg on every run — composed with a Lean transcription of the tree builder; theorems re-checked by the kernel against the regenerated grammar: complete escape table (474 spellings), representative evaluations of every construct, precedence chain, and universal builder lemmas (list flattening, a balanced call sequence completes and an unbalanced one panics, hex/octal decoding for all digit strings, case folding of every rune: AddCaseFold on any node, rule DoubleChar on every raw character and on every escape spelling; model soundness w.r.t. Eval); Go\'s unicode.ToLower/ToUpper transcribed over unicode.CaseRanges regenerated from the linked library; tie T-front: every spelling variant of generated abstract grammars REAL vs denote (spec) vs model (cased, title case and uncased characters, ASCII and beyond, raw and escaped, in every case-insensitive position), strings.ToLower/ToUpper of every code point real vs model, plus a malformed stream (reject or agree with the model, never panic).',
+         'the universal round trip frontEnd(render a sp) = denote a is tested, not proved; documentation deviations were recorded as known findings F-C10-* (all fixed).'),
  'C15': ('Lean transcription of checkRecursion/countRules/link diagnostics and an independent specification (Reachable, Undefined, LeftRec via first references and must-consume); for all grammars: duplicate diagnosed iff names repeat, "defined but not used" iff unreachable, "used but not defined" iff undefined (also the name PegText), left recursion reported iff some rule is left-recursive (LeftRec ⊆ warned ⊆ LeftRecW per rule), -strict fails iff any diagnostic; tie T-diag: ordered warning lines, strict failure and duplicate error of the real generator vs model, warned name sets vs an independent evaluation of the spec, on families + random + exhaustive small grammars.',
          'must-consume is the code\'s conservative syntactic notion (hence "possible" left recursion); rule names colliding with generated names (Action<k>, PegText) are outside the property.'),
  'C11': ('error token = first furthest non-empty attempted token (tie vs spec fold over attempted tokens); translatePositions/Error() proved equal to the 1-based line/column specification for all buffers and offsets (C11Err), no panic; tied by T-err on the current template text.', 'as C01'),
